@@ -15,11 +15,22 @@ micro-step of a thread:
   `begin_session` (A.read, then `self.root()` = M), `Session` reads, drop / `finish` (A.read released),
   `Nomt::root`, `Nomt::read`, `FinishedSession::commit` / `try_commit_nonblocking`, `Overlay::commit` /
   `try_commit_nonblocking` (marker check under M *before* A.write, root check under A.write + M),
-  `rollback` (A.write, `truncate` pops the log, the inner session reads the root under M, its commit
-  re-checks the root under M, publishes, stores);
+  `rollback` (A.write, poison check — since the repair of F21 BEFORE the destructive step —, `truncate` pops the
+  log, the inner session reads the root under M, its commit checks poison and the root under M again, publishes,
+  stores);
 * the poison flag and the two failing I/O steps (`rollback.commit(delta)`, `store.commit`), decided by the
   environment per call (`IoPlan`);
-* Rust scope exit on `bail!` / `?` / `return`: `abort` releases whatever the thread holds of A.write and M.
+* Rust scope exit on `bail!` / `?` / `return`: INSIDE the write-guard section the guards are dropped one after the
+  other, each drop a micro-step of its own (`unwind`: M guard, write guard with the section's verdict, return) — a
+  recorded execution of the real store shows them as separate events and other threads' `try_write` fail in between;
+  outside the section (`try_write` failed, parent marker mismatch) `abort` releases M and returns in one step;
+* the one behaviour of parking_lot's lock that is not "held / not held": `try_write` is `compare_exchange(0, WRITER_BIT)`
+  and fails on a FREE lock while a thread is queued at it (`PARKED_BIT`): event `spur`.
+
+The programs are tied to the source's step order by `Props/C15_LockOrder.lean` (`rfl` against the generated step lists)
+and to executions of the real code by the lock recorder + `Api/Locks2Replay.lean` (`Props/C15_Conformance.lean`): the
+unwinding path, the place of the poison check in `rollback` and `spur` are what the recorded executions made the model
+follow.
 
 **Lock order of the code**: A before M, and M is never held across a blocking acquisition: every `shared.lock()`
 guard is a temporary or a `{ … }` block that ends before the next `access_lock` call.  `wf` below is this
@@ -74,7 +85,8 @@ inductive Instr (R W D : Type) where
   | aWrite1                               -- `access_lock.write()`, step 1: grab WRITER_BIT
   | aWrite2                               -- step 2: wait for the readers to leave → write guard held
   | aTryWrite                             -- `access_lock.try_write()`
-  | aWriteUnlock
+  | aWriteUnlock (r : Res)                -- drop of the write guard; `r` = the verdict of the section (`.ok` on the
+                                          -- straight path, the error on the unwinding path of a `bail!` / `?`)
   | mLock | mUnlock                       -- `shared.lock()` / end of its scope
   | sessRoot (sid : Nat)                  -- under M: the session's `prev_root := shared.root`
   | readRoot                              -- under M: `seen := shared.root`
@@ -127,26 +139,26 @@ def progOf : Call R W D → List (Instr R W D)
   | .root => [.mLock, .readRoot, .mUnlock, .ret .done]
   | .commit cs io =>
     [.aWrite1, .aWrite2, .chkPoison, .mLock, .chkRoot cs.base, .pubRoot cs.newRoot none, .mUnlock,
-     .logPush cs.delta io.logOk, .store cs.writes io.storeOk, .aWriteUnlock, .ret .ok]
+     .logPush cs.delta io.logOk, .store cs.writes io.storeOk, .aWriteUnlock .ok, .ret .ok]
   | .tryCommit cs io =>
     [.aTryWrite, .chkPoison, .mLock, .chkRoot cs.base, .mUnlock, .logPush cs.delta io.logOk,
-     .mLock, .pubRoot cs.newRoot none, .mUnlock, .store cs.writes io.storeOk, .aWriteUnlock, .ret .ok]
+     .mLock, .pubRoot cs.newRoot none, .mUnlock, .store cs.writes io.storeOk, .aWriteUnlock .ok, .ret .ok]
   | .ovCommit cs id parent io =>
     [.mLock, .chkMarker parent, .mUnlock, .aWrite1, .aWrite2, .chkPoison, .mLock, .chkRoot cs.base,
      .pubRoot cs.newRoot (some id), .mUnlock, .logPush cs.delta io.logOk,
-     .store cs.writes io.storeOk, .aWriteUnlock, .ret .ok]
+     .store cs.writes io.storeOk, .aWriteUnlock .ok, .ret .ok]
   | .ovTryCommit cs id parent io =>
     [.mLock, .chkMarker parent, .mUnlock, .aTryWrite, .chkPoison, .mLock, .chkRoot cs.base,
      .pubRoot cs.newRoot (some id), .mUnlock, .logPush cs.delta io.logOk,
-     .store cs.writes io.storeOk, .aWriteUnlock, .ret .ok]
+     .store cs.writes io.storeOk, .aWriteUnlock .ok, .ret .ok]
   | .rollback n io =>
     if n = 0 then [.ret .ok]
-    else [.aWrite1, .aWrite2, .logPop n, .mLock, .readRoot, .mUnlock, .chkPoison, .mLock, .chkSeen, .pubRb,
-          .mUnlock, .storeRb io.storeOk, .aWriteUnlock, .ret .ok]
+    else [.aWrite1, .aWrite2, .chkPoison, .logPop n, .mLock, .readRoot, .mUnlock, .chkPoison, .mLock, .chkSeen,
+          .pubRb, .mUnlock, .storeRb io.storeOk, .aWriteUnlock .ok, .ret .ok]
   | .ovCommitHoldM cs id parent io =>
     [.mLock, .chkMarker parent, .aWrite1, .aWrite2, .chkPoison, .chkRoot cs.base,
      .pubRoot cs.newRoot (some id), .mUnlock, .logPush cs.delta io.logOk,
-     .store cs.writes io.storeOk, .aWriteUnlock, .ret .ok]
+     .store cs.writes io.storeOk, .aWriteUnlock .ok, .ret .ok]
 
 def opOf : Call R W D → Option (WOp R W D)
   | .commit cs io => some (.commit cs none true io)
@@ -218,6 +230,11 @@ deriving DecidableEq, Repr
 inductive Event (R W D : Type) where
   | call (t : Tid) (c : Call R W D)
   | step (t : Tid)
+  /-- `try_write` of `t` fails although the lock is free, because thread `u` is queued at an acquisition of the
+  access lock: parking_lot's `try_lock_exclusive` is `compare_exchange(0, WRITER_BIT)`, and the state word is
+  `PARKED_BIT` — not 0 — between an unlock that woke some of the parked threads and the moment the last parked
+  thread has left the queue.  (Observed in recorded executions of the real store: `vharness lockrec`.) -/
+  | spur (t u : Tid)
 
 section Sem
 variable {C R W D : Type} [DecidableEq R] (ops : DbOps C R W D)
@@ -254,13 +271,22 @@ def eff (i : Instr R W D) (rg : Regs C R D) (db : Db C R D) : Eff C R D :=
 /-- the write-guard section run on its own: from just after the guard was taken to `aWriteUnlock` / a bail -/
 def runCS : List (Instr R W D) → Regs C R D → Db C R D → Db C R D × Res
   | [], _, db => (db, .ok)
-  | .aWriteUnlock :: _, _, db => (db, .ok)
+  | .aWriteUnlock r :: _, _, db => (db, r)
   | i :: rest, rg, db =>
     match eff ops i rg db with
     | .cont rg' db' => runCS rest rg' db'
     | .stop r db' => (db', r)
 
-/-- scope exit on an error: the thread drops its M guard and its write guard -/
+/-- Rust scope exit on an error (`bail!` / `?`) INSIDE the write-guard section: the guards are dropped in
+reverse declaration order, each drop its own micro-step — first the guard of `shared` (if the error is
+raised inside its `{ … }` block), then the write guard, then the call returns the error.  (A recorded real
+execution shows these releases as separate events, and a `try_write` of another thread between the failing
+check and the drop of the write guard does fail.) -/
+def unwind {R W D : Type} (holdsM : Bool) (r : Res) : List (Instr R W D) :=
+  (if holdsM then [.mUnlock] else []) ++ [.aWriteUnlock r, .ret r]
+
+/-- scope exit on an error outside the write-guard section (`try_write` failed, parent marker mismatch): the
+thread drops its M guard (and whatever it holds of the write lock) and returns -/
 def abort (s : S C R W D) (t : Tid) (r : Res) : S C R W D :=
   let th := s.thr t
   let owned := s.wbit == some t
@@ -289,10 +315,10 @@ def exec (s : S C R W D) (t : Tid) (i : Instr R W D) (rest : List (Instr R W D))
   | .aTryWrite =>
     if s.wbit.isSome || !s.readers.isEmpty then (abort s t .busy, .finished .busy)
     else (adv { s with wbit := some t, wown := true, base := s.db }, .ran)
-  | .aWriteUnlock =>
+  | .aWriteUnlock r =>
     (adv { s with wbit := none, wown := false
                   doneOps := (match th.op with | some o => o :: s.doneOps | none => s.doneOps)
-                  doneRes := (match th.op with | some _ => .ok :: s.doneRes | none => s.doneRes)
+                  doneRes := (match th.op with | some _ => r :: s.doneRes | none => s.doneRes)
                   thr := upd s.thr t { th with op := none } }, .ran)
   | .mLock => if s.m.isSome then (s, .blocked) else (adv { s with m := some t }, .ran)
   | .mUnlock => (adv { s with m := none }, .ran)
@@ -303,7 +329,10 @@ def exec (s : S C R W D) (t : Tid) (i : Instr R W D) (rest : List (Instr R W D))
   | i =>
     match eff ops i th.regs s.db with
     | .cont rg db => (adv { s with db := db, thr := upd s.thr t { th with regs := rg } }, .ran)
-    | .stop r db => (abort { s with db := db } t r, .finished r)
+    | .stop r db =>
+      if s.wbit == some t && s.wown then
+        ({ s with db := db, thr := upd s.thr t { th with prog := unwind (s.m == some t) r } }, .ran)
+      else (abort { s with db := db } t r, .finished r)
 
 /-- is the head micro-step of `t` waiting for a lock? -/
 def blocked (s : S C R W D) (t : Tid) : Bool :=
@@ -312,6 +341,13 @@ def blocked (s : S C R W D) (t : Tid) : Bool :=
   | .aWrite1 :: _ => s.wbit.isSome
   | .aWrite2 :: _ => !s.readers.isEmpty
   | .mLock :: _ => s.m.isSome
+  | _ => false
+
+/-- the head micro-step is a blocking acquisition of the access lock by a thread that does not own WRITER_BIT:
+the thread may be parked in the lock's queue -/
+def isQueued {R W D : Type} : List (Instr R W D) → Bool
+  | .aRead _ :: _ => true
+  | .aWrite1 :: _ => true
   | _ => false
 
 def next (s : S C R W D) : Event R W D → S C R W D × StepRes
@@ -323,6 +359,11 @@ def next (s : S C R W D) : Event R W D → S C R W D × StepRes
     match (s.thr t).prog with
     | [] => (s, .idle)
     | i :: rest => exec ops s t i rest
+  | .spur t u =>
+    match (s.thr t).prog with
+    | .aTryWrite :: _ =>
+      if u ≠ t ∧ isQueued (s.thr u).prog = true then (abort s t .busy, .finished .busy) else (s, .misuse)
+    | _ => (s, .misuse)
 
 def run (s : S C R W D) (evs : List (Event R W D)) : S C R W D := evs.foldl (fun s e => (next ops s e).1) s
 
@@ -345,15 +386,15 @@ def specStep (db : Db C R D) : WOp R W D → Db C R D × Res
       else if io = .failStore then ({ pub (logged db) with poisoned := true }, .errIo)
       else ({ pub (logged db) with content := ops.applyW db.content cs.writes }, .ok)
   | .rollback n io =>
-    if n > db.log.length then (db, .errNotEnough)
+    -- (a poisoned store refuses a rollback BEFORE the destructive truncation: the repair of F21)
+    if db.poisoned then (db, .errPoisoned)
+    else if n > db.log.length then (db, .errNotEnough)
     else
       let popped := db.log.take n
       let db1 : Db C R D := { db with log := db.log.drop n }
-      if db.poisoned then (db1, .errPoisoned)
-      else
-        let db2 : Db C R D := { db1 with root := ops.rootOf (ops.traceback db.content popped), marker := none }
-        if io = .failStore then ({ db2 with poisoned := true }, .errIo)
-        else ({ db2 with content := ops.traceback db.content popped }, .ok)
+      let db2 : Db C R D := { db1 with root := ops.rootOf (ops.traceback db.content popped), marker := none }
+      if io = .failStore then ({ db2 with poisoned := true }, .errIo)
+      else ({ db2 with content := ops.traceback db.content popped }, .ok)
 
 /-- sequential execution, oldest operation first -/
 def specRun (db : Db C R D) : List (WOp R W D) → Db C R D × List Res
@@ -404,7 +445,7 @@ def wf : Bool → WS → List (Instr R W D) → Bool
       | .aWrite1 => !hm && ws == .pre && wf false .bit rest
       | .aWrite2 => false
       | .aTryWrite => !hm && ws == .pre && wf false .own rest
-      | .aWriteUnlock => !hm && ws == .own && wf false .none rest
+      | .aWriteUnlock _ => !hm && ws == .own && wf false .none rest
       | .mLock => !hm && wf true ws rest
       | .mUnlock => hm && wf false ws rest
       | .sessRoot _ => hm && ws == .none && wf hm ws rest
